@@ -374,6 +374,28 @@ func (x *Exec) selectField1(v Val, f string, st *State) Val {
 	if v.Sort == "Int" && v.GT != nil {
 		if p, ok := v.GT.Underlying().(*types.Pointer); ok {
 			key, cs := e.heapKeyFor(p.Elem())
+			if stt, isStruct := p.Elem().Underlying().(*types.Struct); isStruct && e.structs[cs] == nil {
+				// a struct type of another module (not a datatype): its fields are the
+				// separate cells the executor uses (fieldcell!T!i), so a specification
+				// can read m.Attributes.Flags of an rtnetlink message
+				for i := 0; i < stt.NumFields(); i++ {
+					if stt.Field(i).Name() != f {
+						continue
+					}
+					fn := fmt.Sprintf("fieldcell!%s!%d", sanitize(cs), i)
+					e.decl(fmt.Sprintf("(declare-fun %s (Int) Int)", fn))
+					cell := fmt.Sprintf("(%s %s)", fn, v.T)
+					ft := stt.Field(i).Type()
+					if _, inner := ft.Underlying().(*types.Struct); inner {
+						if _, fcs := e.heapKeyFor(ft); e.structs[fcs] == nil {
+							return Val{T: cell, Sort: "Int", GT: types.NewPointer(ft)} // embedded opaque struct: stands for its address
+						}
+					}
+					fkey, fs := e.heapKeyFor(ft)
+					return Val{T: fmt.Sprintf("(select %s %s)", e.heapGet(st, fkey), cell), Sort: fs, GT: ft}
+				}
+				x.fail("no field %s in %s", f, cs)
+			}
 			h := e.heapGet(st, key)
 			v = Val{T: fmt.Sprintf("(select %s %s)", h, v.T), Sort: cs, GT: p.Elem()}
 		}
